@@ -4,8 +4,8 @@
      x + 1.0  is z+1 for -2^53 <= z < 2^53 and z otherwise (round to nearest even),
      x - 1.0  is z-1 for -2^53 < z <= 2^53 and z otherwise,
      (a - b).abs() <= EPSILON  is a = b.
-   Proofs/IntSelectProofs.v proves the refinement; the property theorems are
-   then proved on this model with lia. *)
+   Proofs/IntSelectRefine.v proves the refinement (C10_refine); the property
+   theorems are proved on this model with lia (Proofs/IntSelectProofs.v). *)
 From Coq Require Import String ZArith List Bool.
 From Flocq Require Import Core BinarySingleNaN Binary Bits.
 From Typify Require Import Gen.IntTable Algo.IntSelect.
@@ -98,6 +98,22 @@ Definition zdefault_in (d : zdflt) (min max : option Z) : bool :=
       end
   end.
 
+(* the part of convert_integer after the format block (default test, fit
+   search, fallbacks); IntSelect.choose_integer has it as the local `general` *)
+Definition zgeneral (format : option string) (d : zdflt) (min max : option Z) : outcome :=
+  if zdefault_in d min max then
+    match zfit_type min max with
+    | Some ty => Chosen ty
+    | None => if match format with Some f => String.eqb f "uint64" | None => false end
+              then (* values of this format may exceed i64::MAX; none is negative *)
+                   match d with
+                   | Some (Some v) => if v <? 0 then ErrInvalidValue else Chosen "u64"
+                   | _ => Chosen "u64"
+                   end
+              else Chosen "i64"
+    end
+  else ErrInvalidValue.
+
 Definition choose_integer_Z (format : option string) (b : zbounds) (d : zdflt) : outcome :=
   let min := znorm_min b in
   let max := znorm_max b in
@@ -105,14 +121,6 @@ Definition choose_integer_Z (format : option string) (b : zbounds) (d : zdflt) :
               | Some f => find (fun r => String.eqb (z_fmt r) f) int_formats_Z
               | None => None
               end in
-  let general (min max : option Z) :=
-      if zdefault_in d min max then
-        match zfit_type min max with
-        | Some ty => Chosen ty
-        | None => if match format with Some f => String.eqb f "uint64" | None => false end
-                  then Chosen "u64" else Chosen "i64"
-        end
-      else ErrInvalidValue in
   match frow with
   | Some r =>
       let valid_min := match min with None => true | Some m => m >=? z_lo r end in
@@ -128,7 +136,44 @@ Definition choose_integer_Z (format : option string) (b : zbounds) (d : zdflt) :
         if bad_default then ErrInvalidValue
         else if zis_one min then Chosen (z_nz r) else Chosen (z_ty r)
       else
-        general (match min with None => Some (z_lo r) | _ => min end)
-                (match max with None => Some (z_hi r) | _ => max end)
-  | None => general min max
+        zgeneral format d (match min with None => Some (z_lo r) | _ => min end)
+                          (match max with None => Some (z_hi r) | _ => max end)
+  | None => zgeneral format d min max
   end.
+
+(* ---- from the doubles of IntSelect to the integers of this model ---- *)
+Definition Zof0 (x : f64) : Z := match Zof x with Some z => z | None => 0 end.
+
+Definition zb_of (b : bounds) : zbounds :=
+  {| zb_min := option_map Zof0 (b_min b); zb_max := option_map Zof0 (b_max b);
+     zb_emin := option_map Zof0 (b_emin b); zb_emax := option_map Zof0 (b_emax b);
+     zb_mult := match b_mult b with Some _ => true | None => false end |}.
+
+Definition zd_of (d : dflt) : zdflt := option_map (option_map Zof0) d.
+
+(* computable forms of Spec.IntSpec.safeZ / safe_bounds / safe_default, used by
+   the correspondence run of py/props/c10.py (IntSelectProofs proves them
+   equivalent to the Prop forms) *)
+Definition safeZb (z : Z) : bool :=
+  (Z.abs z <=? 2^53) || (z =? - 2^63) || (z =? 2^63) || (z =? 2^64).
+Definition safeb (x : f64) : bool :=
+  match Zof x with Some z => safeZb z | None => false end.
+Definition osafeb (o : option f64) : bool := match o with Some x => safeb x | None => true end.
+Definition safe_boundsb (b : bounds) : bool :=
+  osafeb (b_min b) && osafeb (b_max b) && osafeb (b_emin b) && osafeb (b_emax b).
+Definition safe_defaultb (d : dflt) : bool :=
+  match d with
+  | Some (Some v) => match Zof v with Some _ => true | None => false end
+  | _ => true
+  end.
+
+(* both models on one lattice point: "unsafe" outside the domain of the
+   refinement theorem, "same:<outcome>" when they agree, "DIFF:..." otherwise *)
+Definition run_both (f : option string) (mn mx emn emx mu : option Z) (d : option (option Z)) : string :=
+  let b := mkb mn mx emn emx mu in
+  let dd := mkd d in
+  if safe_boundsb b && safe_defaultb dd then
+    let o1 := show_outcome (choose_integer f b dd) in
+    let o2 := show_outcome (choose_integer_Z f (zb_of b) (zd_of dd)) in
+    if String.eqb o1 o2 then "same:" ++ o1 else "DIFF:" ++ o1 ++ "/" ++ o2
+  else "unsafe".
